@@ -226,10 +226,23 @@ func init() {
 		"(*" + natsPkg + ".Conn).IsClosed": func(fr *frame, a []value) value { return false },
 		"(*" + natsPkg + ".Conn).Close":    func(fr *frame, a []value) value { return nil },
 		"(*" + natsPkg + ".Subscription).Unsubscribe": func(fr *frame, a []value) value {
+			if e, ok := fr.i.side["nats-unsubscribe-error"]; ok && e != nil {
+				// e.g. the connection is already closed
+				return e
+			}
 			key := fmt.Sprintf("nats-unsub:%p", a[0].(*value))
 			n, _ := fr.i.side[key].(int)
 			fr.i.side[key] = n + 1
 			return nilError
+		},
+		zz + "NatsFailUnsubscribe": func(fr *frame, a []value) value {
+			if a[0].(bool) {
+				pkg := fr.i.prog.ImportedPackage("errors")
+				fr.i.side["nats-unsubscribe-error"] = call(fr.i, fr, token.NoPos, pkg.Func("New"), []value{"nats: connection closed"})
+			} else {
+				fr.i.side["nats-unsubscribe-error"] = nil
+			}
+			return nil
 		},
 		zz + "NatsSubs": func(fr *frame, a []value) value {
 			lst, _ := fr.i.side["nats-subs"].([]value)
